@@ -180,3 +180,16 @@ def frac_num(x):
 def cons_name(v):
     """class name of a node built by an external constructor (Python `ast` nodes)"""
     return type(v).__name__
+
+
+def float_rounds_to(x, v):
+    """the float v is the binary64 nearest to the rational x >= 0 (ties to even, overflow to inf): the value
+    CPython gives a float literal denoting x.  int/int true division is correctly rounded in CPython."""
+    x = Fraction(x)
+    if x < 0 or not isinstance(v, float):
+        return False
+    try:
+        f = x.numerator / x.denominator
+    except OverflowError:
+        f = float('inf')
+    return f == v
